@@ -193,9 +193,12 @@ Definition get_source (fs : option (list (list path))) (pkg : option (list path)
 Definition fs_raw (rs : list (list path)) : list path := concat rs.
 
 (* listing of a loader -> the index built by type_to_template:
-     filtered = [f for f in listing if Path(f).suffix == TEMPLATE_SUFFIX];  dict(map(lambda x: (Path(x).stem, Path(x)), filtered)) *)
-Definition mk_tset (suffix : str) (listing : list path) : tset :=
-  map (fun p => (py_stem (basename p), p)) (filter (fun p => str_eqb (py_suffix (basename p)) suffix) listing).
+     filtered = [f for f in listing if Path(f).suffix == TEMPLATE_SUFFIX];  dict(map(lambda x: (Path(x).stem, Path(x)), filtered))
+   top_only = true: additionally `"/" not in f` (the fix for F-LOOKUP-SUBDIR-NAME: only templates directly under a templates
+   directory are type templates); which of the two the code does is a regenerated fact (g_index_top_level_only) *)
+Definition mk_tset (top_only : bool) (suffix : str) (listing : list path) : tset :=
+  map (fun p => (py_stem (basename p), p))
+      (filter (fun p => str_eqb (py_suffix (basename p)) suffix && (negb top_only || str_eqb (basename p) p)) listing).
 
 (* template mapping of one loader for classes: templates[current_search_type.__name__] *)
 Definition tmap (cname : cls -> str) (l : tset) : cls -> option path := fun c => aget l (cname c).
